@@ -43,6 +43,7 @@ fixed("C01", "bb2b1ae", "an alert nested in a list item or in another quote lost
 fixed("C01", "c6214be", "a table inside a list item or block quote was rendered at column 0 and left its container", "block[table-in-list]/shape")
 fixed("C01", "e6efcc2", "the separator line of a loose list inside a quote inside a list item (or footnote) was built with strip(): '- a / (blank) /   > - x /   > / (two spaces)> - y' came out with a bare '>' at column 0, which ends the outer item (also C02)", "block[loose-list-in-quote-in-item]/shape")
 fixed("C01", "dd9e149", "empty list items were dropped: '1. a / 2. / 3. b' -> '1. a / 3. b' (and renumbered on the next run, C02)", "block[empty-item]/shape:+/-item")
+fixed("C01", "8a49827", "render_table did not reset the skip-next-blank-line flag set by a heading: '# h' directly followed by a table lost the blank line after the table, and the next run read the following paragraph as a table row (C02)", "block[heading-then-table]/shape")
 fixed("C06", "a81efe7", "no blank line before a closing tag after a list item that wraps or has a continuation line: the tag was read as part of the item on the next run (also C01/C02)", "tagblock[cont-before-close-*]/tagblock:blank-line-separated")
 fixed("C17", "fa95314", "directory traversal followed symlinks to files (targets outside the tree or inside excluded directories were listed); glob arguments skipped excluded directories and .flowmarkignore", "dir/unwanted[reached-via-file-link]")
 
@@ -117,6 +118,23 @@ _HB = ("a heading is always followed by a blank line; directly inside an item of
        "tight item and not its last block (Marko elements carry no parent link): not small.")
 for _p, _k in [("C02", "idempotent:blank-lines"), ("C03", "history:blank-lines")]:
     known(_p, f"heading-then-block-in-tight-item/{_k}", _HB)
+
+# ---------------------------------------------------------------- known: sentence-initial-marker, escaped-numeral-after-soft-break, code-span-inner-space-runs
+_SM = ("semantic mode wraps every sentence separately, and markdown_escape_word is only applied to words that start a continuation line *within* a sentence: the first word of a sentence that "
+       "starts a line of its own is not escaped, so 'aaa bbb ccc. # m n o' comes out as 'aaa bbb ccc.' / '# m n o' (a heading; likewise '-', '+', '1.' start a list). The 6-line repair (escape the "
+       "first word of such a sentence) was written; it changes line 982 of tests/testdocs/testdoc.expected.*.md ('- REBEL EM - more words' would become '\\- REBEL EM ...'), so the unedited suite "
+       "fails with it: recorded, not repaired.")
+for _p, _k in [("C01", "shape"), ("C02", "idempotent"), ("C03", "history"), ("C03", "relayout")]:
+    known(_p, f"sentence-initial-marker/{_k}", _SM)
+known("C02", "escaped-numeral-after-soft-break/idempotent:escape",
+      "render_literal keeps the escape of '1\\.' when it stands at the start of a *source* line (also after a soft break, where it is needed if the line is not re-flowed), the wrapper then joins the "
+      "lines, and on the next run the numeral is mid-line and loses the escape: 'foo\\n1\\. bar' -> 'foo 1\\. bar' -> 'foo 1. bar'. Whether the escape is needed depends on the output position, which "
+      "only the wrapper knows; moving the decision there is not a small change.")
+_CS = ("wrapping collapses every whitespace run to one space before atomic constructs are protected, so a code span padded with two or more spaces loses one level of padding per run: "
+       "'`  a  `' -> '` a `' -> '`a`' (CommonMark strips one space on each side when parsing). Content of a code span changes (C01/C04) and two runs are needed (C02). Not repaired: the "
+       "normalisation is shared by all wrap modes and the golden documents.")
+for _p, _k in [("C01", "shape:same-kinds:text-or-attr"), ("C02", "idempotent:content"), ("C03", "history:content"), ("C03", "relayout:content")]:
+    known(_p, f"code-span-inner-space-runs/{_k}", _CS)
 
 # ---------------------------------------------------------------- known: C06
 known("C06", "sentence-end-inside-construct/atomic:words",
